@@ -198,3 +198,57 @@ class ReturnTap:
         mon.register_callback(TOOL_RET, E.PY_RETURN, None)
         mon.register_callback(TOOL_RET, E.RAISE, None)
         return False
+
+
+TOOL_COV = 1
+
+
+class LineCoverage:
+    """Which statement lines of the given source files were executed (LINE events that return
+    DISABLE after the first hit, so every line costs one callback per process)."""
+
+    def __init__(self, path_prefixes):
+        _claim(TOOL_COV, "rv-cov")
+        self.prefixes = tuple(path_prefixes)
+        self.hit: dict[str, set[int]] = {}
+
+    def start(self):
+        mon.register_callback(TOOL_COV, E.LINE, self._line)
+        mon.set_events(TOOL_COV, E.LINE)
+        return self
+
+    def _line(self, code, line):
+        f = code.co_filename
+        if f.startswith(self.prefixes):
+            self.hit.setdefault(f, set()).add(line)
+        return mon.DISABLE
+
+    def stop(self):
+        mon.set_events(TOOL_COV, 0)
+        mon.register_callback(TOOL_COV, E.LINE, None)
+        return {f: sorted(v) for f, v in self.hit.items()}
+
+
+def statement_lines(path):
+    """Line numbers that can produce a LINE event (first line of every statement inside a
+    function or at module level), excluding docstrings."""
+    import ast
+
+    with open(path) as fh:
+        tree = ast.parse(fh.read())
+    lines = set()
+    for fn in ast.walk(tree):
+        if not isinstance(fn, (ast.FunctionDef, ast.AsyncFunctionDef)):
+            continue
+        for node in ast.walk(fn):
+            if node is fn or not isinstance(node, ast.stmt):
+                continue
+            if isinstance(node, (ast.FunctionDef, ast.AsyncFunctionDef, ast.ClassDef)):
+                continue
+            if isinstance(node, ast.Expr) and isinstance(getattr(node, "value", None), ast.Constant) \
+                    and isinstance(node.value.value, str):
+                continue
+            if isinstance(node, ast.Raise) and "NotImplementedError" in ast.dump(node):
+                continue
+            lines.add(node.lineno)
+    return lines
